@@ -374,6 +374,20 @@ func init() {
 			s.RembEncode(brs[i:j])
 		}
 	}
+	extraScripts["rembencrow"] = func(s *exec.State, rec abs.V) {
+		c := abs.I(rec["c"])
+		brs := make([]any, 256)
+		for i := range brs {
+			w := uint32(256*c + i)
+			if rec["kind"] == "int" {
+				brs[i] = abs.Float(float32(w))
+			} else {
+				brs[i] = abs.Float(abs.FloatFromBits(150<<23 | w<<6))
+			}
+		}
+		s.Reset()
+		s.RembEncode(brs)
+	}
 	extraOps["rembdec"] = func(s *exec.State, ev abs.V) { s.RembDecode(abs.I(ev["exp"]), intlist(ev["args"])) }
 	extraOps["rembenc"] = func(s *exec.State, ev abs.V) { s.RembEncode(abs.List(ev["args"])) }
 	// random wire pairs and float inputs (dense around powers of two and mantissa carries)
@@ -501,6 +515,9 @@ func init() {
 			s.Sweep(name, stride)
 		}
 		s.Sweep("rembscale24", (stride+255)/256)
+		for _, name := range []string{"rembencint", "rembenctop18", "rembencscale", "rembencsat"} {
+			s.Sweep(name, (stride+15)/16)
+		}
 		s.Sweep("fir40", stride*251*257+1)
 	}
 }
